@@ -71,10 +71,35 @@ def correspondence(payload):
                              "optimize(p) compared structurally with the generated model; distinct = distinct reprs")
 
 
+def big_trees():
+    import math
+    from predicate.standard_predicates import all_p, any_p, eq_p, gt_p, lt_p, ne_p
+    from predicate import predicate as PP
+    _mk, sets_ = gen.big_atom_makers()
+    out = []
+    for i, a in enumerate(sets_):
+        for b in sets_[i + 1:]:
+            for op in ("and", "or", "xor"):
+                out += [gen.mk(op, a(), b()), gen.mk(op, b(), a())]
+    nan = math.nan
+    # (NaN constants are outside the property's premise - constants must be comparable: `eq_p(nan) | eq_p(1)` becomes `in_p(nan, 1)`, and `in`
+    #  finds the same nan object by identity; recorded in DESIGN.md section 7, not searched here)
+    out += [gen.mk("or", gen.mk("or", gen.mk("or", any_p(lt_p(0)), PP.is_empty_p), all_p(eq_p(1))), any_p(gt_p(5))),
+            gen.mk("or", any_p(lt_p(0)), gen.mk("or", PP.is_empty_p, gen.mk("or", all_p(eq_p(1)), any_p(gt_p(5))))),
+            gen.mk("and", gen.mk("and", gen.mk("and", all_p(gt_p(0)), PP.is_not_empty_p), any_p(eq_p(1))), all_p(lt_p(5)))]
+    return out, [[1.5], [1, 1], [1], {1}, [], [0, 6], [-1], [1, 2, 3], [7]] + gen.BIG_SETS
+
+
 def search(payload):
     thorough = payload["tier"] == "thorough" or payload.get("deep")
     trees, family = trees_for(payload, for_search=True, flags=True)
-    return oc.search(trees, collections(thorough), "C03", payload, family=family)
+    res = oc.search(trees, collections(thorough), "C03", payload, family=family)
+    bt, bp = big_trees()
+    big = oc.search(bt, bp, "C03", payload)
+    res["evaluations"] += big["evaluations"]
+    res["failures"] = (res["failures"] + big["failures"])[:10]
+    res["known_hits"] += [h for h in big["known_hits"] if not h.get("witness")]
+    return res
 
 
 def replay(payload):
